@@ -26,5 +26,11 @@ head=open('/verif/scripts/design_head.md').read(); tail=open('/verif/scripts/des
 r2=open('/verif/scripts/design_round2.md').read() if os.path.exists('/verif/scripts/design_round2.md') else ''
 fo=sum(1 for v in frozen.values() if v.get('own')); fa=sum(1 for v in frozen.values() if v.get('properties'))
 r2=r2.replace('@@SEEDTABLE2@@',t2).replace('@@N2@@',str(n2)).replace('@@D2@@',str(d2)).replace('@@FO@@',str(fo)).replace('@@FA@@',str(fa)).replace('@@FN@@',str(len(frozen)))
-out=head+parts['sec2']+parts['sec3']+tail.replace('@@SEEDTABLE@@',t1).replace('@@ROUND2@@',r2).replace('@@SEC6@@',parts['sec6']).replace('@@SEC8@@',parts['sec8']).replace('@@SEC4@@',parts['sec4'].replace('## 4. Per-property design','## 11. Appendix — per-property design as written before the code (kept for the reasoning; §4 is authoritative for what is checked)'))
+rt=''
+for f in sorted(glob.glob('/verif/evidence/C*.json')):
+    e=json.load(open(f)); c=e['coverage']
+    rt+="**%s** — %d obligations, %d discharged, %d exempt\n\n| rule | decides | instances | minimum |\n|---|---|---|---|\n"%(e['property_id'],c['obligations'],c['discharged'],c['exempt'])
+    for r in c['rules']: rt+="| %s | %s | %d | %d |\n"%(r['rule'],r['decides'],r['instances'],r['min_instances'])
+    rt+="\n"
+out=head+parts['sec2']+parts['sec3']+tail.replace('@@SEEDTABLE@@',t1).replace('@@ROUND2@@',r2).replace('@@RULETABLE@@',rt).replace('@@SEC6@@',parts['sec6']).replace('@@SEC8@@',parts['sec8']).replace('@@SEC4@@',parts['sec4'].replace('## 4. Per-property design','## 11. Appendix — per-property design as written before the code (kept for the reasoning; §4 is authoritative for what is checked)'))
 open('/verif/DESIGN.md','w').write(out); print(len(out),'bytes; round1',d1,'/',n1,'round2',d2,'/',n2)
